@@ -952,7 +952,7 @@ func (x *c13Run) keeperTx(f func(ctx sdk.Context) error) (res TxResult) {
 func TestC13(t *testing.T) {
 	seed := envInt("VERIF_SEED", 1)
 	col := NewCollector("C13", seed)
-	n := 60
+	n := 80
 	if tier() == "thorough" {
 		n = 900
 	}
